@@ -221,6 +221,8 @@ def real_attach(S, C):
         ('other_names_kept', 'dict_same_except(%s.indexes, %s.name)' % (S, C)),
         ('byname_object_kept', 'implies(old(idx_has({S}, {C}.name)), idx_list({S}, {C}.name) is old(idx_list({S}, {C}.name)))'
          .format(S=S, C=C)),
+        ('byname_object_fresh', 'implies(not old(idx_has({S}, {C}.name)), is_fresh(idx_list({S}, {C}.name)))'
+         .format(S=S, C=C)),
         ('left_traversal_index',
          'implies(old(tidx_has({S}, {C}.name)), '.format(S=S, C=C) + removed_first(
              lambda i: 'tidx_item_of(old(tidx_list(%s, %s.name)), %s)' % (S, C, i),
@@ -325,4 +327,41 @@ contract(
     modifies=ATTACH_MODIFIES,
     allocates=['La.R', 'Ll'],
     properties=['C09', 'C10', 'C11', 'C12'],
+)
+
+
+def inserted(seq_item, seq_len, pos, what):
+    """clause: sequence == old[:pos] ++ [what] ++ old[pos:]"""
+    return ('{ln} == old({ln}) + 1 and {at} is {what} and '
+            'all({item_k} is old({item_k}) for k in range({pos})) and '
+            'all({item_k1} is old({item_k}) for k in range({pos}, old({ln})))'
+            .format(ln=seq_len, at=seq_item(pos), item_k=seq_item('k'), item_k1=seq_item('k + 1'), pos=pos, what=what))
+
+
+# C09: insert puts the child at `index` of the child list and at `by_name_index` of its by-name list (end for -1)
+INS_POS = '(index if index >= 0 else index + old(len(self.list)))'
+INS_BN = '(old(idx_len(self, child.name)) if by_name_index == -1 else by_name_index)'
+contract(
+    'hl7apy.core:ElementList.insert',
+    sig={'self': 'ElementList', 'index': 'int', 'child': 'Element', 'by_name_index': 'int'},
+    returns='none',
+    requires=['sep(self)', OWNED, '0 <= index and index <= len(self.list)',
+              'by_name_index == -1 or (0 <= by_name_index and by_name_index <= idx_len(self, child.name))',
+              # call-site precondition: the child is not a temporary (traversal) child of this element
+              'child._parent is self.element or child._traversal_parent is not self.element',
+              # ... and is not listed already (C10: no child is listed twice)
+              NOT_IN_LIST,
+              'all(idx_item(self, child.name, k) is not child for k in range(idx_len(self, child.name)))'],
+    ensures=[
+        ('list_position', inserted(list_item, 'len(self.list)', 'index', 'child')),
+        ('byname_position', 'idx_has(self, child.name) and ' +
+         inserted(idx_item, 'idx_len(self, child.name)', INS_BN, 'child')),
+        ('other_names_kept', 'dict_same_except(self.indexes, child.name)'),
+        ('linked', 'child._parent is self.element'),
+        ('sep', 'sep(self)'),
+    ],
+    raises=ATTACH_RAISES,
+    modifies=ATTACH_MODIFIES,
+    allocates=['La.R', 'Ll'],
+    properties=['C09', 'C10', 'C12'],
 )
